@@ -1023,8 +1023,9 @@ func (h *harness) do(s stepT) error {
 	c := h.c
 	switch s.Op {
 	case "Subscribe", "Mon.Subscribe", "Mon.ChanSubscribe", "Sub.Cancel", "Mon.Unsubscribe":
-		if h.monitorStopped() {
-			rec.Known(kfMonitorStopped)
+		// only while KF-C21-1 is listed as open; it was repaired by aa11db2 and
+		// the operations are executed again
+		if rec.Known(kfMonitorStopped) && h.monitorStopped() {
 			return errSkippedStopped
 		}
 	}
